@@ -166,15 +166,35 @@ def check(ctx):
         'set': ('curr.union({new}) if curr is not None else {new}', 'list(value) if value is not None else []'),
         'counters': ('update_counter(curr, new)', 'list(collections.Counter(value).most_common()) if value is not None else []'),
     }
+    commutative = {'sum', 'count', 'avg', 'max', 'min'}
+
+    def canon(e, comm):
+        """canonical text: `x if c is None else y` -> `y if c is not None else x`; operands of + (numeric aggregates) and
+        arguments of max/min sorted"""
+        if isinstance(e, ast.IfExp):
+            t, b, o = e.test, e.body, e.orelse
+            if isinstance(t, ast.Compare) and isinstance(t.ops[0], ast.Is) and u(t.comparators[0]) == 'None':
+                t = ast.Compare(left=t.left, ops=[ast.IsNot()], comparators=t.comparators)
+                b, o = o, b
+            return '%s if %s else %s' % (canon(b, comm), u(t), canon(o, comm))
+        if isinstance(e, ast.BinOp) and isinstance(e.op, ast.Add) and comm:
+            return ' + '.join(sorted([canon(e.left, comm), canon(e.right, comm)], reverse=True))
+        if isinstance(e, ast.Tuple):
+            return '(' + ', '.join(canon(x, comm) for x in e.elts) + ')'
+        if isinstance(e, ast.Call) and u(e.func) in ('max', 'min') and comm:
+            return '%s(%s)' % (u(e.func), ', '.join(sorted((canon(a, comm) for a in e.args), reverse=True)))
+        return u(e)
+
     for name, (fshape, finshape) in shape.items():
         c = table.get(name)
         if not (isinstance(c, ast.Call) and len(c.args) == 4):
             run.fail('AGG', m.relpath, J + ':<module>', 'AGGREGATORS[%r]' % name, 'aggregate %r missing or malformed' % name)
             continue
         f, fin = c.args[0], c.args[1]
-        okf = isinstance(f, ast.Lambda) and [a.arg for a in f.args.args] == ['curr', 'new'] and u(f.body) == fshape
+        okf = isinstance(f, ast.Lambda) and [a.arg for a in f.args.args] == ['curr', 'new'] and \
+            canon(f.body, name in commutative) == canon(ast.parse(fshape, mode='eval').body, name in commutative)
         fint = u(fin.body) if isinstance(fin, ast.Lambda) else u(fin)
-        okn = fint == finshape
+        okn = fint == finshape or (isinstance(fin, ast.Lambda) and canon(fin.body, False) == canon(ast.parse(finshape, mode='eval').body, False))
         run.check(okf and okn, 'AGG', where(repo, c), J + ':<module>', 'AGGREGATORS[%r] = (%s ; %s)' % (name, fshape, finshape),
                   'aggregate %r no longer computes its documented definition (fold: %s ; finaliser: %s)'
                   % (name, u(f.body) if isinstance(f, ast.Lambda) else u(f), fint))
